@@ -1049,6 +1049,12 @@ def judge(case, obs, ref):
             return [("model-structure-constraints-vs-variables",
                      "run_sim raised ValueError (%s) at a solve instead of reporting a step that cannot be solved" % obs["exc"][1])]
         return [("unexpected-exception-%s" % obs["exc"][0], "run_sim raised %s: %s" % obs["exc"])]
+    if got == "raiseAlreadySolved" and exp == "finished" and any(not (p[1] < p[3]) for p in obs["pres"] if not p[2]) \
+            and any(c.get("kind") == "tank" for c in case["spec"].get("c16_controls", [])):
+        return [("tank-backtrack-whole-step",
+                 "a TankLevelCondition reported a backtrack >= the step (presolve moved the clock from %s back to %s <= prev %s) and run_sim "
+                 "raised 'Simulation already solved this timestep' although no step failed"
+                 % next((p[0], p[3], p[1]) for p in obs["pres"] if not p[2] and not (p[1] < p[3])))]
     if got != exp:
         if exp == "finished":
             out.append(("clean-run-%s" % got, "no step failed but run_sim ended with %s (%s)" % (got, tag)))
@@ -1460,6 +1466,7 @@ class C16(Check):
                                        "time": obs.get("time"), "exc": obs["exc"], "warnings": obs["warnings"][:4]}}
                 for key, what in verdicts:
                     failures.append(Failure(key, what, replay))
+                replay["_judged"] = [k for k, _ in verdicts]
                 for rec in obs["newton"]:
                     ctx.count("newton_solve_calls")
                     for key, what in judge_newton(rec):
@@ -1512,7 +1519,9 @@ class C16(Check):
                 if diffs:
                     ctx.count("model_disagreements")
                     broken.append(Broken("correspondence", "RunLoopDriver vs run_sim", "; ".join(diffs) + "\n" + line + "\n" + ans))
-                if m["contract"] != "ok":
+                if m["contract"] != "ok" and "tank-backtrack-whole-step" in replay.get("_judged", []):
+                    ctx.count("contract_breach_explained_by_failure")  # the breach IS the concrete failure reported for this run
+                elif m["contract"] != "ok":
                     ctx.count("contract_breach")
                     broken.append(Broken("correspondence", "presolve contract", "a presolve call left (prev, cur]: %s\n%s\n%s"
                                          % (m["contract"], line, json.dumps(replay["observed"]["pres"]))))
